@@ -5,6 +5,7 @@ import (
 	"context"
 	"database/sql"
 	"fmt"
+	"regexp"
 	"sort"
 	"strings"
 
@@ -128,6 +129,8 @@ func snapshot(db *sql.DB) (map[string]*snap, error) {
 	}
 	return out, nil
 }
+
+var reNotNull = regexp.MustCompile(`NOT NULL constraint failed: (\w+)\.(\w+)`)
 
 var dataErrors = []string{"constraint failed", "NOT NULL", "UNIQUE", "CHECK", "FOREIGN KEY", "foreign key", "cannot store", "datatype mismatch", "Cannot add a", "cannot add a", "foreign-key violation", "violat", "foreign_key_check",
 	// ALTER TABLE ADD COLUMN on a STRICT table checks the DEFAULT against the column type; CREATE TABLE does not. The
@@ -271,6 +274,15 @@ func checkCase(c Case) (Outcome, error) {
 		apply = db.ApplyNoTx
 	}
 	if err := apply(ctx, changes); err != nil {
+		// a NULL under a column that becomes NOT NULL is back-filled with the column's DEFAULT by the planner (IFNULL in the
+		// copy, documented): when the desired column has a default, a NOT NULL failure on it is the planner's, not the data's
+		if m := reNotNull.FindStringSubmatch(err.Error()); m != nil {
+			if tb := c.B.Table(strings.TrimPrefix(m[1], "new_")); tb != nil {
+				if col := tb.Col(m[2]); col != nil && col.Default != "" && col.Gen == "" {
+					return out, fmt.Errorf("apply failed on a NOT NULL column that has a DEFAULT to back-fill with: %v\n  plan:\n%s", err, ptxt.String())
+				}
+			}
+		}
 		if isDataError(err) {
 			out.Rejected = "data-caused engine failure"
 			// all-or-nothing: the failed apply must not have changed anything (C13 looks at this through the CLI)
